@@ -33,9 +33,15 @@ package main
 //@   assigns nothing
 //@ func (t cj.WrappingTransport) LogPrefix() string
 //@   assigns nothing
+// C03 "for any peer": the peer address of a TCP (or UDP) connection is taken from the socket address itself, never
+// re-parsed from its text form - a zoned IPv6 literal ("fe80::1%eth0") does not parse, and a handler that gets no
+// address returns (and closes) at once instead of holding the connection silently.
 //@ func getRemoteAsIP(conn net.Conn) net.IP
+//@   requires conn != nil
+//@   atcall RemoteAddr after: snap ra := res
+//@   ensures @C03: defined(ra) && typeis(ra, *net.TCPAddr) && unboxptr(ra, *net.TCPAddr) != nil ==> result == unboxptr(ra, *net.TCPAddr).IP
+//@   ensures @C03: defined(ra) && typeis(ra, *net.UDPAddr) && unboxptr(ra, *net.UDPAddr) != nil ==> result == unboxptr(ra, *net.UDPAddr).IP
 //@   assigns nothing
-//@   trusted
 
 // The handler of one phantom connection. matched: a transport recognised the flight (MarkActive is reached);
 // gaveUp: a transport returned an unexpected error (the handler then sleeps until the deadline).
